@@ -104,6 +104,14 @@ def run_history(seed_pages: dict, rng, days):
     return None
 
 
+def is_f18(case) -> bool:
+    """Known finding F18: a note whose explicit YYMMDD modify date equals its create date (the date part of its ZID):
+    when it is stamped, the index keeps the old date word in the body ('240302 220615 220615#oK ...') while the file
+    has it replaced."""
+    pat = re.compile(r"^(-|[ox~<>]( P[0-9])?) +([0-9]{6}) \3#")
+    return " body: index " in case.get("error", "") and any(pat.match(ln) for t in case["pages"].values() for ln in t.split("\n"))
+
+
 def histories(tier, seed):
     rng = random.Random(seed * 17 + 3)
     n = 12 if tier == "quick" else 200
